@@ -139,6 +139,39 @@ class Recorder:
     def hid(self, handler):
         return self.hids.get(id(handler), 0)
 
+    # ------------------------------------------------------------------ dump / resume support
+    def save_dump_copy(self, output_handler):
+        """Copy the dump file just written and store the recorder's own tables next to it, so that the recorder of a
+        resumed process continues the numbering (interned ids, sample counters) of the dumping process."""
+        import shutil
+        self.ndumps = getattr(self, "ndumps", 0) + 1
+        src = output_handler._output_filename
+        dst = os.path.join(os.path.dirname(os.path.abspath(self.out.name)),
+                           os.path.basename(self.out.name)[:-7] + ".dump%d.dat" % self.ndumps)
+        shutil.copyfile(src, dst)
+        state = dict(pos=[[list(map(float.hex, k)), v] for k, v in self.pos_ids.items()],
+                     vel=[[list(map(float.hex, k)), v] for k, v in self.vel_ids.items()],
+                     charge=list(self.charge_ids.items()),
+                     hid_time={str(h): [float(t.quotient).hex(), float(t.remainder).hex()] for h, t in self.hid_time.items()},
+                     sample_calls=self.sample_calls, sample_first={str(k): [v.numerator, v.denominator] for k, v in self.sample_first.items()},
+                     speed=[self.speed.numerator, self.speed.denominator] if self.speed else None,
+                     legs=self.legs, seq=self.seq, ndumps=self.ndumps, end_time=self.end_time)
+        json.dump(state, open(dst + ".rec.json", "w"))
+        return self.ndumps
+
+    def load_state(self, path):
+        from jellyfysh.base.time import Time
+        st = json.load(open(path))
+        self.pos_ids = {tuple(float.fromhex(x) for x in k): v for k, v in st["pos"]}
+        self.vel_ids = {tuple(float.fromhex(x) for x in k): v for k, v in st["vel"]}
+        self.charge_ids = dict((k, v) for k, v in st["charge"])
+        self.hid_time = {int(h): Time(float.fromhex(q), float.fromhex(r)) for h, (q, r) in st["hid_time"].items()}
+        self.sample_calls = {int(k): v for k, v in st["sample_calls"].items()}
+        self.sample_first = {int(k): Fraction(a, b) for k, (a, b) in st["sample_first"].items()}
+        self.speed = Fraction(*st["speed"]) if st["speed"] else None
+        self.legs, self.seq, self.ndumps, self.end_time = st["legs"], st["seq"], st["ndumps"], st["end_time"]
+        self.resumed = True
+
     # ------------------------------------------------------------------ init record
     def on_mediator_built(self, mediator):
         import jellyfysh.setting as setting
@@ -435,9 +468,10 @@ def install(recorder):
                 try:
                     ret = orig(self)
                 except Exception as e:
-                    REC.emit("next", hid=0, err=type(e).__name__)
+                    REC.emit("next", hid=0, err=type(e).__name__, t=[list(NAN), list(NAN)])
                     raise
-                REC.emit("next", hid=REC.hid(ret), err="none")
+                lr = getattr(self, "_last_returned_event", None)
+                REC.emit("next", hid=REC.hid(ret), err="none", t=tkey(lr[0]) if lr else [list(NAN), list(NAN)])
                 if REC.max_legs is not None and REC.legs >= REC.max_legs:
                     REC.stop_reason = "max_legs"
                     raise EndOfRun      # the repository's own way to end a run; run.main() then calls post_run()
@@ -543,8 +577,12 @@ def install(recorder):
                 kind = "state"
             elif args and args[0] is r.mediator:
                 kind = "dump"
-            r.emit("write", handler=output_handler, kind=kind, hid=hid, state=state, **r.drain_descs())
-            return orig(self, output_handler, *args)
+            ret = orig(self, output_handler, *args)
+            dump = 0
+            if kind == "dump":
+                dump = r.save_dump_copy(self._output_handlers_dictionary[output_handler])
+            r.emit("write", handler=output_handler, kind=kind, hid=hid, state=state, dump=dump, **r.drain_descs())
+            return ret
         return write
     wrap(InputOutputHandler, "write", mk_write)
 
